@@ -13,7 +13,12 @@ previous_block_hash read, the anchor given to the constructor and every query ar
 created object - computed ints above the small-int cache, bytes built per use; "block": real pycoin Block headers
 parsed from their own 80 serialised bytes, whose hash() is the double-SHA256 computed per call), the way the
 tracker is constructed (own storage dict / the constructor's default arguments, which all trackers of a process
-share) and the kind of iterable handed to add_headers (list / tuple / one-shot generator).
+share), the kind of iterable handed to add_headers (list / tuple / one-shot generator) and the number of change
+listeners registered before the first delivery (one, or two that each replay the ops they are sent on a list of their own).
+
+The mechanism key of a violation is the symptom the monitor saw (chain.nonmax, chain.ops_replay_differs_from_chain, ...),
+nothing else: the input classes a history went through (a locked header delivered again, a lock while chains tied, an
+orphan's parent arriving mid-path) are listed in the witness's `observed.input_classes` for the reader only.
 """
 import hashlib
 import io
@@ -41,7 +46,8 @@ RULE = ("histories = headers (hash, parent, weight>0) + events (batches handed t
         "object; ints within the interpreter's small-int cache cannot be duplicated and stay shared) or block (pycoin "
         "Block.parse_as_header of per-header bytes; Block.hash() computes a new digest per call); a constructor form "
         "(own storage dict / default arguments shared by all trackers of the process) and a batch form (list, then "
-        "emptied by the caller together with the returned ops list / tuple / one-shot generator). Weights: unit, "
+        "emptied by the caller together with the returned ops list / tuple / one-shot generator); sampled histories also "
+        "draw one or two change listeners. Weights: unit, "
         "mixed 1..4, and 'pow' = mixed*2**70 + (0|1) so that totals lie far above 2**53, some chains tie exactly and some "
         "differ by 1 or 2. Sampled part: N=6..14, "
         "random positive integer weights (unit, small, wide, proof-of-work sized k*2**70+tiny), re-delivered headers, "
@@ -62,14 +68,19 @@ ASSUMPTIONS = [
     "a hash identifies a header: a re-delivered hash always carries the same parent and weight (duplicates are the same "
     "header again); weights are positive integers; the anchor hash is never delivered; no cycles",
     "the reported chain is [hash_for_index(i) for i in range(length())]; ties between equal-weight chains may be broken "
-    "either way, but the ops must then reproduce whichever chain is reported",
+    "either way and differently at every delivery (the reported chain may move from one maximum-weight chain to another "
+    "on a delivery that adds nothing), but the ops must then reproduce whichever chain is reported",
+    "an op is (kind, header object, index) with kind 'add' (appends at index = current length) or 'remove' (takes the tip "
+    "away, index = its position, header = the tip); tuple_for_index(i) is (hash, parent hash, weight); an index is "
+    "anything that compares equal to the position",
     "two hash values denote the same header when they compare equal (==); nothing may depend on their being the same "
     "object. The iterable given to add_headers is consumed once; after the call the caller may empty the list it passed "
     "and the list of ops it got back",
     "block representation: the header's weight is its 32-bit difficulty field as parsed; its hash is the double-SHA256 of "
     "the 80 header bytes (the harness stops as inconclusive if pycoin's Block disagrees with hashlib on that)",
     "lock_to_index(k) is only called with 0 <= k <= length(); the locked prefix is the first k entries of the chain "
-    "reported (and judged correct) after the preceding delivery",
+    "reported (and judged correct) after the preceding delivery; after a lock the admissible chains are those that start "
+    "with the locked prefix",
     "the statement speaks about the state after each delivery; nothing is judged between a lock and the next delivery",
 ]
 EXPLANATION = ("after each add_headers: chain parent-linked from the anchor through delivered headers, starts with the locked "
@@ -347,26 +358,36 @@ class Session(object):
         self.delivered = {}
         self.locked = []
         self.replayed = []
-        self.cb_replayed = []
-        self.cb_pending = []
         self.chain = []
-        self.relocked_delivery = False
-        self.lock_on_tie = False
+        self.ties = 1           # number of maximum-weight chains at the last judged delivery
+        self.context = set()    # input classes met so far (information for the reader of a witness, not part of any key)
         self.stale = False
-        pend = self.cb_pending
+        # one listener, or two registered before the first delivery: each gets every delivery's ops and replays on its own list
+        self.cbs = []           # [pending lists of ops, replayed list]
+        self._callbacks = []    # BlockChain keeps callbacks in a WeakSet: hold strong references
+        for _ in range(mode.get("cbs", 1)):
+            pend = []
 
-        def callback(_bc, ops):
-            pend.append(list(ops))
-        self._callback = callback           # BlockChain keeps callbacks in a WeakSet: hold a strong reference
-        self.bc.add_change_callback(callback)
+            def callback(_bc, ops, pend=pend):
+                pend.append(list(ops))
+            self.cbs.append((pend, []))
+            self._callbacks.append(callback)
+            self.bc.add_change_callback(callback)
 
     def lock(self, k):
         """-> None or (mech, observed, expected)"""
         self.rec.ev("lock_to_index")
         if self.stale:          # (only reachable in minimised histories) look at the chain that is about to be locked
             self.chain = [self.bc.hash_for_index(i) for i in range(self.bc.length())]
-        if k > len(self.locked) and RC.count_best(self.delivered, self.anchor, self.locked) > 1:
-            self.lock_on_tie = True
+            self.ties = RC.best_weight_ties(self.delivered, self.anchor, self.locked)[1]
+        if k > len(self.chain):
+            # outside the quantifier (see ASSUMPTIONS): can only happen when a history generated from the lengths of
+            # another run is re-run and a tie was broken the other way; there is no prefix of that length to lock
+            self.rec.ev("lock_to_index.skipped_beyond_length")
+            return None
+        if k > len(self.locked) and self.ties > 1:
+            self.rec.ev("lock_to_index.while_chains_tie")
+            self.context.add("lock_to_index called while several chains had the maximum weight")
         st, r = observe(self.bc.lock_to_index, k)
         if st != "ok":
             return ("chain.lock_to_index_raises", r, "no exception")
@@ -377,6 +398,8 @@ class Session(object):
     def _replay(self, ops, chain):
         rec = self.rec
         rec.ev("ops_returned", len(ops))
+        if ops and ops[0][0] == "remove":
+            rec.ev("ops_returned.reorganisation")
         for op in ops:
             st, hh = observe(lambda: (op[0], op[1].hash(), op[2]))
             bad = "malformed op" if st != "ok" else RC.replay_op(self.replayed, *hh)
@@ -384,16 +407,20 @@ class Session(object):
                 return ("chain.ops_not_applicable", {"ops": _ops_plain(ops), "why": bad, "chain": chain}, "ops that replay")
         return None
 
-    def _replay_cb(self, chain):
+    def _replay_cb(self, chain, compare=True):
         rec = self.rec
-        for cops in self.cb_pending:
-            rec.ev("ops_callback", len(cops))
-            for op in cops:
-                st, hh = observe(lambda: (op[0], op[1].hash(), op[2]))
-                bad = "malformed op" if st != "ok" else RC.replay_op(self.cb_replayed, *hh)
-                if bad:
-                    return ("chain.callback_ops_not_applicable", {"ops": _ops_plain(cops), "why": bad, "chain": chain}, "ops that replay")
-        del self.cb_pending[:]
+        for ci, (pending, replayed) in enumerate(self.cbs):
+            for cops in pending:
+                rec.ev("ops_callback" if ci == 0 else "ops_callback.second_listener", len(cops))
+                for op in cops:
+                    st, hh = observe(lambda: (op[0], op[1].hash(), op[2]))
+                    bad = "malformed op" if st != "ok" else RC.replay_op(replayed, *hh)
+                    if bad:
+                        return ("chain.callback_ops_not_applicable",
+                                {"ops": _ops_plain(cops), "why": bad, "chain": chain, "listener": ci}, "ops that replay")
+            del pending[:]
+            if compare and replayed != chain:
+                return ("chain.callback_ops_replay_differs_from_chain", {"replayed": replayed, "chain": chain, "listener": ci}, chain)
         return None
 
     def deliver(self, batch, metas, quiet=False):
@@ -407,8 +434,13 @@ class Session(object):
             if h not in delivered:
                 delivered[h] = (p, w)
             elif h in lockset:
-                self.relocked_delivery = True
+                rec.ev("add_headers.redelivers_locked_header")
+                self.context.add("a header of the locked prefix was delivered again")
         rec.ev("add_headers")
+        if not metas:
+            rec.ev("add_headers.empty_batch")
+        if lockset:
+            rec.ev("add_headers.after_lock")
         rec.ev("add_headers.%s.%s" % (self.mode["rep"], self.mode["feed"]))
         fresh_q = self.mode["rep"] != "shared"
         given = _feed(batch, self.mode["feed"])
@@ -420,7 +452,7 @@ class Session(object):
         if quiet:
             rec.ev("add_headers.not_read_back")
             self.stale = True
-            bad = self._replay(ops, "(not read)") or self._replay_cb("(not read)")
+            bad = self._replay(ops, "(not read)") or self._replay_cb("(not read)", compare=False)
             if not bad and type(ops) is list and self.mode["feed"] == "list":
                 del ops[:]
             return bad
@@ -447,11 +479,13 @@ class Session(object):
             return ("chain.locked_prefix_changed", {"chain": chain}, {"locked_prefix": self.locked})
         # (b) maximum weight
         got_w = RC.chain_weight(chain, delivered)
-        best = RC.best_weight(delivered, self.anchor, self.locked)
+        best, self.ties = RC.best_weight_ties(delivered, self.anchor, self.locked)
         if best is None:
             raise AssertionError("oracle: locked prefix is not a chain")
         if got_w != best:
             return ("chain.nonmax", {"chain": chain, "weight": got_w}, {"max_weight": best})
+        if self.ties > 1:           # any of the tied chains is as good as another, at this delivery and at the next
+            rec.ev("delivery.several_chains_tie")
         # (c) lookups in both directions
         pos = {h: i for i, h in enumerate(chain)}
         rec.ev("index_for_hash", len(delivered))
@@ -459,7 +493,7 @@ class Session(object):
             st, idx = observe(bc.index_for_hash, fresh(h) if fresh_q else h)
             if st != "ok":
                 return ("chain.index_for_hash_raises", {"hash": h, "exc": idx}, pos.get(h))
-            if idx != pos.get(h) or (idx is not None and type(idx) is not int):
+            if idx != pos.get(h):
                 if h in pos:
                     return ("chain.index_for_hash_wrong_index", {"hash": h, "index_for_hash": idx, "chain": chain}, pos[h])
                 return ("chain.index_for_hash_knows_offchain_hash", {"hash": h, "index_for_hash": idx, "chain": chain}, None)
@@ -482,31 +516,19 @@ class Session(object):
             return ("chain.ops_replay_differs_from_chain", {"ops": _ops_plain(ops), "replayed": self.replayed, "chain": chain}, chain)
         if type(ops) is list and self.mode["feed"] == "list":
             del ops[:]                   # what was returned is the caller's too
-        bad = self._replay_cb(chain)
-        if bad:
-            return bad
-        if self.cb_replayed != chain:
-            return ("chain.callback_ops_replay_differs_from_chain", {"replayed": self.cb_replayed, "chain": chain}, chain)
-        return None
+        return self._replay_cb(chain)
 
 
-CAUSES = {
-    "chain.locked_header_redelivered": "a header that is already in the locked prefix was handed to add_headers again",
-    "chain.lock_with_tied_chains": "lock_to_index was called while two different chains had the maximum weight",
-    "chain.orphan_parent_midpath": "an orphan's missing parent arrived in the same batch as another of its descendants",
-}
-
-
-def classify(symptom, hdrs, events, sess):
-    """Mechanism key = the input class (a predicate over the witness, never values) when one of the three classes
-    with a recorded root cause applies, else the symptom itself."""
-    if sess is not None and sess.relocked_delivery:
-        return "chain.locked_header_redelivered"
-    if sess is not None and sess.lock_on_tie:
-        return "chain.lock_with_tied_chains"
+def observed_of(bad, hdrs, events, sess, **extra):
+    """What goes into a violation's `observed`: the symptom (= the mechanism key: what the monitor saw, never an
+    input class, so that a violation cannot be filed under the key of some other defect whose input class the history
+    happens to share), what was seen, and - as information only - the notable input classes the history went through."""
+    classes = sorted(sess.context) if sess is not None else []
     if _midpath_predicate(hdrs, events):
-        return "chain.orphan_parent_midpath"
-    return symptom
+        classes.append("an orphan's missing parent arrived in the same batch as another of its descendants")
+    d = {"symptom": bad[0], "seen": bad[1], "input_classes": classes}
+    d.update(extra)
+    return d
 
 
 def make_case(anchor, hdrs, events, mode, raws=None):
@@ -542,8 +564,7 @@ def run_history(BlockChain, anchor, hdrs, events, rec, objs=None, mode=MODE0, ra
             lengths.append(len(sess.chain))
         if bad:
             case = make_case(anchor, hdrs, events[:k + 1], mode, raws)
-            mech = classify(bad[0], hdrs, case["events"], sess)
-            return (mech, case, {"symptom": bad[0], "seen": bad[1]}, bad[2]), lengths
+            return (bad[0], case, observed_of(bad, hdrs, case["events"], sess), bad[2]), lengths
     return None, lengths
 
 
@@ -567,8 +588,7 @@ def run_twin(BlockChain, anchor, hdrs, events_a, events_b, rec, mode, raws=None)
                 other = events_b if name == "a" else events_a
                 mine["peer_events"] = make_case(anchor, hdrs, other[:k + 1 if name == "b" else k], mode, raws)["events"]
                 mine["failed_side"] = name
-                mech = classify(bad[0], hdrs, mine["events"], sess)
-                return (mech, mine, {"symptom": bad[0], "seen": bad[1], "tracker": name}, bad[2])
+                return (bad[0], mine, observed_of(bad, hdrs, mine["events"], sess, tracker=name), bad[2])
     return None
 
 
@@ -683,19 +703,42 @@ def history_key(hdrs, events, anchor):
     return parents, tuple(order), tuple(shape), wts
 
 
-def nontrivial(key):
+def shape_of(key):
+    """-> (fork, orphan): two delivered headers share a known parent / a header is delivered before its parent or its
+    parent never arrives"""
     parents = key[0]
-    fork = len([p for p in parents if p != -2]) != len(set(p for p in parents if p != -2))
+    known = [p for p in parents if p != -2]
+    fork = len(known) != len(set(known))
     orphan = any(p == -2 or p > i for i, p in enumerate(parents))
-    return fork or orphan
+    return fork, orphan
+
+
+def nontrivial(key):
+    return any(shape_of(key))
 
 
 def _count_case(rec, hdrs, events, anchor, counted=True):
+    """Counts the history and the clauses of the statement's domain it belongs to (forks, orphans, duplicates, locks)."""
     key = history_key(hdrs, events, anchor)
-    nt = nontrivial(key)
-    rec.case(key, nontrivial=nt and counted)
-    if not nt:
+    fork, orphan = shape_of(key)
+    rec.case(key, nontrivial=(fork or orphan) and counted)
+    if fork:
+        rec.ev("history.with_fork")
+    if orphan:
+        rec.ev("history.with_orphan")
+    if not (fork or orphan):
         rec.ev("history.plain")
+    if len(key[1]) > len(key[0]):
+        rec.ev("history.with_duplicate")
+    shape = key[2]
+    if shape and min(shape) < 0:
+        rec.ev("history.with_lock")
+        if sum(1 for x in shape if x < 0) > 1:
+            rec.ev("history.with_several_locks")
+    if len(shape) - sum(1 for x in shape if x < 0) > 1:
+        rec.ev("history.several_batches")
+    if any(x % 1000 > 1 for x in shape if x >= 0):
+        rec.ev("history.batch_of_several")
     return key
 
 
@@ -799,7 +842,7 @@ def gen_mode(rng):
         scheme, rp = "block", "block"
     ctor = rng.choice(["own", "own", "default", "noargs"])
     feed = rng.choice(["list", "list", "gen", "tuple"])
-    return scheme, {"rep": rp, "ctor": ctor, "feed": feed}
+    return scheme, {"rep": rp, "ctor": ctor, "feed": feed, "cbs": rng.choice([1, 1, 2])}
 
 
 def gen_weight_fn(rng, rp):
@@ -961,21 +1004,21 @@ def report_sampled(BlockChain, rec, bad, anchor, hdrs, raws, events, mode, sess,
     elif peer is not None:
         other = peer[0]
     case = make_case(anchor, hdrs, events, mode, raws)
-    mech = classify(bad[0], hdrs, case["events"], sess)
+    mech = bad[0]
     if getattr(rec, "viol_count", {}).get(mech, 0) >= 4:      # only counted from here on: no need to minimise it
-        rec.violation(mech, case, {"symptom": bad[0], "seen": bad[1], "note": "not minimised"}, bad[2])
+        rec.violation(mech, case, observed_of(bad, hdrs, case["events"], sess, note="not minimised"), bad[2])
         return
-    small = shrink(BlockChain, case, mech, bad[0])
+    small = shrink(BlockChain, case, mech)
     if small:
         rec.violation(*small)
         return
     if peer is not None:      # needs both trackers: report the pair as run
         case["peer_events"] = make_case(anchor, hdrs, other, mode, raws)["events"]
         case["failed_side"] = peer[1]
-        rec.violation(mech, case, {"symptom": bad[0], "seen": bad[1], "tracker": peer[1]}, bad[2])
+        rec.violation(mech, case, observed_of(bad, hdrs, case["events"], sess, tracker=peer[1]), bad[2])
         return
     # not reproducible from the recorded events: report as seen
-    rec.violation(mech, case, {"symptom": bad[0], "seen": bad[1], "note": "did not reproduce on re-run"}, bad[2])
+    rec.violation(mech, case, observed_of(bad, hdrs, case["events"], sess, note="did not reproduce on re-run"), bad[2])
 
 
 # histories generated against the reported chain
@@ -1106,8 +1149,8 @@ def _rerun(BlockChain, case):
     return bad
 
 
-def shrink(BlockChain, case, mech, symptom, budget=400):
-    """Greedy: drop whole events, then single headers, while the same mechanism key and symptom are reported.
+def shrink(BlockChain, case, mech, budget=400):
+    """Greedy: drop whole events, then single headers, while the same mechanism key (= symptom) is reported.
     -> (mech, case, observed, expected) of the smallest history found, or None."""
     cur = _rerun(BlockChain, case)
     if cur is None or cur[0] != mech:
@@ -1131,7 +1174,7 @@ def shrink(BlockChain, case, mech, symptom, budget=400):
                 r = _rerun(BlockChain, c)
             except Exception:
                 continue
-            if r is not None and r[0] == mech and r[2]["symptom"] == symptom:
+            if r is not None and r[0] == mech:
                 cur = r
                 changed = True
                 break
@@ -1151,17 +1194,29 @@ def shrink(BlockChain, case, mech, symptom, budget=400):
 
 def run_shard(spec, rec):
     BlockChain = _imports()
-    rec.require("add_headers", "hash_for_index", "index_for_hash", "tuple_for_index", "last_block_hash",
-                "ops_returned", "ops_callback")
+    rec.require("add_headers", "length", "hash_for_index", "index_for_hash", "tuple_for_index", "last_block_hash",
+                "ops_returned", "ops_callback",
+                # the clauses of the domain: forks, orphans, any order (children first = orphans), any batching, ties,
+                # reorganisations (ops that remove)
+                "history.with_fork", "history.with_orphan", "history.several_batches", "history.batch_of_several",
+                "delivery.several_chains_tie", "ops_returned.reorganisation")
     if spec["kind"] == "exh":
         m = spec.get("mode", MODE0)
-        rec.require("add_headers.%s.%s" % (m["rep"], m["feed"]))
+        rec.require("history.exhaustive", "add_headers.%s.%s" % (m["rep"], m["feed"]))
         if spec.get("locks", "none") != "none":
-            rec.require("lock_to_index")
+            rec.require("lock_to_index", "history.exhaustive_with_lock", "history.with_lock", "add_headers.after_lock")
+        if spec.get("dups", 0) >= spec.get("nmin", 1):
+            rec.require("history.exhaustive_with_duplicate", "history.with_duplicate")
+            if spec.get("locks", "none") == "all":
+                rec.require("add_headers.redelivers_locked_header", "lock_to_index.while_chains_tie")
         run_exh(spec, rec, BlockChain)
     else:
-        rec.require("lock_to_index", "history.twin", "history.duel", "add_headers.shared.list", "add_headers.fresh.list",
-                    "add_headers.fresh.gen", "add_headers.block.list", "add_headers.block.tuple", "add_headers.not_read_back")
+        rec.require("lock_to_index", "history.sampled", "history.twin", "history.duel", "add_headers.shared.list",
+                    "add_headers.fresh.list", "add_headers.fresh.gen", "add_headers.block.list", "add_headers.block.tuple",
+                    "add_headers.not_read_back", "add_headers.empty_batch", "add_headers.after_lock",
+                    "add_headers.redelivers_locked_header", "lock_to_index.while_chains_tie",
+                    "history.with_duplicate", "history.with_lock", "history.with_several_locks",
+                    "ops_callback.second_listener")
         run_rand(spec, rec, BlockChain)
 
 
@@ -1247,7 +1302,7 @@ class _ModelChain(object):
             ops = ops + adds
         self.ever = set(getattr(self, "ever", ())) | set(self.chain)
         self.chain = list(best)
-        for f in self.cbs:
+        for f in (self.cbs[:1] if self.broken == "one_listener" else self.cbs):
             f(self, ops)
         return ops
 
@@ -1309,4 +1364,18 @@ def _selftest_monitor():
             else:
                 assert expect in mechs, ("monitor misses identity comparison", rp, scheme, mechs)
             out["%s/%s/%s" % (broken, rp, scheme)] = {"histories": runs, "mechanisms": mechs}
+    # a tracker that only tells its first listener: invisible with one listener, seen with two
+    for ncb, expect in ((1, None), (2, "chain.callback_ops_replay_differs_from_chain")):
+        factory = lambda anchor, unlocked_block_storage=None: _ModelChain(anchor, broken="one_listener")
+        mechs, runs = {}, 0
+        anchor, labels, unknown = make_labels("asc", "shared", 3, rng)
+        for pf in RC.parent_functions(3):
+            hdrs = [(labels[i], anchor if pf[i] == RC.ANCHOR else unknown[i] if pf[i] == RC.UNKNOWN else labels[pf[i]], 1)
+                    for i in range(3)]
+            bad, _ = run_history(factory, anchor, hdrs, [("d", [0, 1]), ("d", [2])], rec, None, dict(MODE0, cbs=ncb))
+            runs += 1
+            if bad:
+                mechs[bad[0]] = mechs.get(bad[0], 0) + 1
+        assert (not mechs) if expect is None else (set(mechs) == {expect}), ("listeners", ncb, mechs)
+        out["one_listener/%d listeners" % ncb] = {"histories": runs, "mechanisms": mechs}
     return out
